@@ -182,6 +182,14 @@ def search(ctx):
         if r["rc"] != ["exit", 0]:
             ctx.fail({"kind": "cli-crash", "pair": list(c["pair"])}, f"CLI failed {r['rc']}", {"case": c})
         elif r["flagged0"] and r["flagged1"] and not r["failed"] and not shadowed(r["after"]):
+            lines_after = r["after"].splitlines()
+            flagged_lines = [lines_after[f[0] - 1] for locs in r["flagged1"] for f in locs if 0 < f[0] <= len(lines_after)]
+            if flagged_lines and all(not ln.isascii() for ln in flagged_lines):
+                # the recorded byte-column finding, met through this scenario
+                ctx.fail({"kind": "flagged-location-not-rewritten", "codemod": b, "shape": "non-ascii-before-site"},
+                         f"{b}, run after {a}: its rule reports {r['flagged1']} on a line with non-ASCII characters before the site; not rewritten, not failed",
+                         {"case": c, "before": r["before"], "after": r["after"]})
+                continue
             ctx.fail({"kind": "flagged-not-handled", "codemod": b, "after": a},
                      f"{b}, run after {a} in one invocation: its rule reports {r['flagged1']} in the final file, which is neither rewritten there nor listed as failed",
                      {"case": c, "before": r["before"], "after": r["after"], "changed_by": r["changed_by"]})
